@@ -59,22 +59,16 @@ pub fn run_c07(tier: Tier) -> Report {
                                         if o[4 * p + 3] != 255 { "alpha" } else { "colour" },
                                         if p < 4 { "lane" } else { "remainder" }
                                     );
-                                    rep.violation(
-                                        &sig,
-                                        format!("(Y,Cb,Cr)=({yv},{cbv},{crv}) at x={p} of a 7x1 picture -> {:?}, BT.601 16.16 model {:?}", &o[4 * p..4 * p + 4], want),
-                                        replay_json(7, &ly, &lcb, &lcr),
-                                    );
+                                    rep.violation_lazy(&sig, || {
+                                        (format!("(Y,Cb,Cr)=({yv},{cbv},{crv}) at x={p} of a 7x1 picture -> {:?}, BT.601 16.16 model {:?}", &o[4 * p..4 * p + 4], want), replay_json(7, &ly, &lcb, &lcr))
+                                    });
                                     break;
                                 }
                             }
                             let real = Bt601::real(y8, cb8, cr8);
                             for c in 0..3 {
                                 if (o[c] as f64 - real[c]).abs() > 1.0 + 1e-9 {
-                                    rep.violation(
-                                        "C07/real-distance",
-                                        format!("({yv},{cbv},{crv}) channel {c}: {} vs real-valued {:.4}", o[c], real[c]),
-                                        replay_json(7, &ly, &lcb, &lcr),
-                                    );
+                                    rep.violation_lazy("C07/real-distance", || (format!("({yv},{cbv},{crv}) channel {c}: {} vs real-valued {:.4}", o[c], real[c]), replay_json(7, &ly, &lcb, &lcr)));
                                 }
                             }
                             // SAFETY: each (y,cb,cr) index is written by exactly one task
@@ -108,11 +102,9 @@ pub fn run_c07(tier: Tier) -> Report {
                                         nwant
                                     };
                                     if o.len() != 28 || o[4 * x..4 * x + 4] != e {
-                                        rep.violation(
-                                            "C07/colour-mixed-lanes",
-                                            format!("triple ({yv},{cbv},{crv}) at x={p} among complementary pixels: pixel {x} = {:?}, model {:?}", o.get(4 * x..4 * x + 4), e),
-                                            replay_json(7, &ly, &lcb, &lcr),
-                                        );
+                                        rep.violation_lazy("C07/colour-mixed-lanes", || {
+                                            (format!("triple ({yv},{cbv},{crv}) at x={p} among complementary pixels: pixel {x} = {:?}, model {:?}", o.get(4 * x..4 * x + 4), e), replay_json(7, &ly, &lcb, &lcr))
+                                        });
                                         break;
                                     }
                                 }
